@@ -20,7 +20,7 @@ for d in sorted(glob.glob("/verif/seeded/*/")):
     status = ("caught by " + ", ".join(caught)) if caught else ("MISSED by " + ", ".join(missed) if missed else "not run yet")
     if caught and missed:
         status += " (first missed by " + ", ".join(missed) + " before the check was strengthened)"
-    rows.append(f"| {sid} | {m.get('property')} | {(m.get('breaks') or '')[:150].replace('|', '/')} | {(m.get('needs') or '')[:150].replace('|', '/')} | {status} | {how} |")
+    rows.append(f"| {sid} | {m.get('property')} | {(m.get('breaks') or m.get('summary') or '')[:150].replace('|', '/')} | {(m.get('needs') or '')[:150].replace('|', '/')} | {status} | {how} |")
 table = "| id | property | change | needs | result | minimal failing input reported |\n|---|---|---|---|---|---|\n" + "\n".join(rows)
 p = "/verif/DESIGN.md"
 s = open(p).read()
